@@ -130,6 +130,19 @@ func extJSONToken(fr *frame, args []value) value {
 	case 4:
 		return tuple{iface{t: types.Typ[types.String], v: t[1]}, iface{}}
 	case 5:
+		// a decoder in UseNumber mode returns the numeral as spelled
+		dt := i.namedType("encoding/json", "Decoder")
+		dst := (*args[0].(*value)).(structure)[fieldIndex(dt, "d")].(structure)
+		ds, _ := i.pkgMember("encoding/json", "decodeState").(*ssa.Type)
+		if ds != nil {
+			if un, _ := dst[fieldIndex(ds.Type(), "useNumber")].(bool); un {
+				spelled := t[1]
+				if s, ok := spelled.(string); ok && s == "" {
+					panic(abortPath{"unsupported", "json.Number without a scripted source spelling"})
+				}
+				return tuple{iface{t: i.namedType("encoding/json", "Number"), v: spelled}, iface{}}
+			}
+		}
 		return tuple{iface{t: types.Typ[types.Float64], v: t[2]}, iface{}}
 	case 6:
 		return tuple{iface{t: types.Typ[types.Bool], v: t[3]}, iface{}}
